@@ -155,3 +155,22 @@ pub fn gen_model_spec(rng: &mut Rng, big: bool) -> ProgSpec {
     };
     ProgSpec::Model(foreign::gen_model(rng, &cfg))
 }
+
+// ------------------------------------------------------------------------------------------------
+// Qualification: a process-level check only takes programs whose own in-process run finishes
+// within a step budget (a generated program that does not terminate is a generator defect, not a
+// finding; it must not cost a 20 s watchdog per child).
+
+pub fn qualify(spec: &ProgSpec, step_budget: u64) -> Option<vm::RunResult> {
+    let program = match spec.build() {
+        Ok(p) => p,
+        Err(_) => return None,
+    };
+    let r = vm::run(&program, &vm::RunCfg { step_budget, ..Default::default() });
+    if r.end == vm::RunEnd::Budget { None } else { Some(r) }
+}
+
+/// true when the source does not even compile (still a legitimate subject for some checks)
+pub fn builds(spec: &ProgSpec) -> bool {
+    spec.build().is_ok()
+}
